@@ -9,7 +9,6 @@ import (
 	"io"
 	"net"
 	"net/http"
-	"sort"
 	"strings"
 	"sync"
 	"testing"
@@ -41,82 +40,106 @@ func actArgs(a Act) string {
 	return s
 }
 
+// one scripted rspamd per process (a listener per row would use up the ports of
+// the machine); the rows run one after the other, curRspamd is the row being run
+type rspamdRow struct {
+	in       In
+	wantBody []byte
+	nreq     int
+	seen     []Seen
+}
+
+var (
+	rspamdOnce sync.Once
+	rspamdAddr string
+	rspamdMu   sync.Mutex
+	curRspamd  *rspamdRow
+)
+
+func rspamdHandler(w http.ResponseWriter, req *http.Request) {
+	got, _ := io.ReadAll(req.Body)
+	rspamdMu.Lock()
+	row := curRspamd
+	if row == nil {
+		rspamdMu.Unlock()
+		w.WriteHeader(500)
+		return
+	}
+	st := "match"
+	if !bytes.Equal(got, row.wantBody) {
+		st = "mismatch"
+	}
+	row.nreq++
+	row.seen = append(row.seen, Seen{C: "REQ", A: []string{req.Method, req.URL.Path, st}})
+	for _, k := range reportFields {
+		if vs, ok := req.Header[k]; ok {
+			row.seen = append(row.seen, Seen{C: k, A: append([]string{}, vs...)})
+		}
+	}
+	rp := row.in.Resp
+	rspamdMu.Unlock()
+	// the server ends the connection: no port of the client is left in TIME_WAIT
+	w.Header().Set("Connection", "close")
+	switch rp.K {
+	case "json":
+		w.Header().Set("Content-Type", "application/json")
+		w.WriteHeader(200)
+		fmt.Fprintf(w, `{"is_skipped":false,"score":%s,"required_score":15.0,"action":%q,"symbols":{"VERIF":{"name":"VERIF","score":1.5}},"message-id":"1@verif.test"}`,
+			milliJSON(rp.Milli), rp.Action)
+	case "noaction-field":
+		w.WriteHeader(200)
+		fmt.Fprintf(w, `{"score":%s,"symbols":{}}`, milliJSON(rp.Milli))
+	case "status":
+		w.WriteHeader(rp.Status)
+		fmt.Fprintf(w, `{"error":"verif scripted status %d"}`, rp.Status)
+	case "badjson":
+		w.WriteHeader(200)
+		io.WriteString(w, "<html>this is not JSON</html>")
+	case "empty":
+		w.WriteHeader(200)
+	case "drop":
+		if hj, ok := w.(http.Hijacker); ok {
+			c, _, err := hj.Hijack()
+			if err == nil {
+				c.Close()
+			}
+		}
+	default:
+		panic("unknown response kind " + rp.K)
+	}
+}
+
+func startRspamd(t *testing.T) {
+	rspamdOnce.Do(func() {
+		ln, err := net.Listen("tcp4", "127.0.0.1:0")
+		if err != nil {
+			t.Fatalf("listen: %v", err)
+		}
+		rspamdAddr = ln.Addr().String()
+		srv := &http.Server{Handler: http.HandlerFunc(rspamdHandler)}
+		go func() { _ = srv.Serve(ln) }()
+	})
+}
+
 func runRspamd(t *testing.T, r Row, o *Out) {
 	in := r.In
-	var ln net.Listener
-	var api string
+	startRspamd(t)
+	api := "http://" + rspamdAddr
 	if in.Resp.K == "refused" {
 		addr, release := reservedPort(t)
 		defer release()
 		api = "http://" + addr
-	} else {
-		var err error
-		ln, err = net.Listen("tcp4", "127.0.0.1:0")
-		if err != nil {
-			t.Fatalf("row %d: listen: %v", r.ID, err)
-		}
-		api = "http://" + ln.Addr().String()
 	}
-	var mu sync.Mutex
-	nreq := 0
-	var seen []Seen
-	wantBody := func() []byte {
-		_, h := headerOf(in)
-		return append([]byte(h), bodyBytes(in.Body)...)
+	_, h := headerOf(in)
+	row := &rspamdRow{in: in, wantBody: append([]byte(h), bodyBytes(in.Body)...)}
+	rspamdMu.Lock()
+	curRspamd = row
+	rspamdMu.Unlock()
+	defer func() {
+		rspamdMu.Lock()
+		curRspamd = nil
+		rspamdMu.Unlock()
 	}()
-	srv := &http.Server{Handler: http.HandlerFunc(func(w http.ResponseWriter, req *http.Request) {
-		got, _ := io.ReadAll(req.Body)
-		st := "match"
-		if !bytes.Equal(got, wantBody) {
-			st = "mismatch"
-		}
-		mu.Lock()
-		nreq++
-		seen = append(seen, Seen{C: "REQ", A: []string{req.Method, req.URL.Path, st}})
-		keys := []string{}
-		for k := range req.Header {
-			keys = append(keys, k)
-		}
-		sort.Strings(keys)
-		for _, k := range reportFields {
-			if vs, ok := req.Header[k]; ok {
-				seen = append(seen, Seen{C: k, A: append([]string{}, vs...)})
-			}
-		}
-		mu.Unlock()
-		rp := in.Resp
-		switch rp.K {
-		case "json":
-			w.Header().Set("Content-Type", "application/json")
-			w.WriteHeader(200)
-			fmt.Fprintf(w, `{"is_skipped":false,"score":%s,"required_score":15.0,"action":%q,"symbols":{"VERIF":{"name":"VERIF","score":1.5}},"message-id":"1@verif.test"}`,
-				milliJSON(rp.Milli), rp.Action)
-		case "noaction-field":
-			w.WriteHeader(200)
-			fmt.Fprintf(w, `{"score":%s,"symbols":{}}`, milliJSON(rp.Milli))
-		case "status":
-			w.WriteHeader(rp.Status)
-			fmt.Fprintf(w, `{"error":"verif scripted status %d"}`, rp.Status)
-		case "badjson":
-			w.WriteHeader(200)
-			io.WriteString(w, "<html>this is not JSON</html>")
-		case "empty":
-			w.WriteHeader(200)
-		case "drop":
-			if hj, ok := w.(http.Hijacker); ok {
-				c, _, err := hj.Hijack()
-				if err == nil {
-					c.Close()
-				}
-			}
-		default:
-			panic("unknown response kind " + rp.K)
-		}
-	})}
-	if ln != nil {
-		go func() { _ = srv.Serve(ln) }()
-		defer srv.Close()
-	}
 
 	var b strings.Builder
 	b.WriteString("check {\n")
@@ -155,12 +178,12 @@ func runRspamd(t *testing.T, r Row, o *Out) {
 		return
 	}
 	sendMsg(t, r, pipe, o)
-	mu.Lock()
-	o.Seen = seen
+	rspamdMu.Lock()
+	o.Seen = row.seen
 	if o.Seen == nil {
 		o.Seen = []Seen{}
 	}
-	o.Conns = nreq
-	mu.Unlock()
+	o.Conns = row.nreq
+	rspamdMu.Unlock()
 	o.Closed = true
 }
